@@ -123,8 +123,12 @@ def _absent(ctx, py):
         m = cls(data, 1.0)
         pva = pd.Series([50.0, 30.0, 10.0, 1.0, 2.0, 0.1, 1.0, 2.0, 3.0], index=NAMES)
         em = py.error_model.InsErrorModel()
-        w_abs = [m.compute_matrices(t, pva, em) is None for t in (0.5, 1.5, 3.0, float("nan"))]
+        w_abs = [m.compute_matrices(t, pva, em) is None for t in (0.5, 1.5, 3.0, float("nan"), 1.0 + 1e-9, 2.0 - 1e-12)]
         w_pre = [m.compute_matrices(t, pva, em) is not None for t in (1.0, 2.0)]
+        # large time stamps (GPS time of week): a tolerance relative to the stamp must not accept absent times
+        big = cls(pd.DataFrame(np.ones((3, 3)), index=[345600.0, 345601.0, 345602.0], columns=data.columns), 1.0)
+        w_abs += [big.compute_matrices(t, pva, em) is None for t in (345600.5, 345601.0001, 345599.0, 345602.9)]
+        w_pre += [big.compute_matrices(t, pva, em) is not None for t in (345600.0, 345602.0)]
         ok = ok and all(w_abs) and all(w_pre)
         ctx.ob("C06.%s.absent" % cls.__name__, "c", ok, "ast-path-check+native-witness", 0.0,
                "single `return None` guarded by `time not in self.data.index` at entry; every other return is a 3-tuple",
